@@ -238,16 +238,6 @@ end examples
 
 /-! ## 2. Exceedance probability = per-location mean of the instance array -/
 
-theorem cast_sumR (n : Nat) (f : Nat → Nat) : ((sumR n f : Nat) : Rat) = sumR n (fun k => ((f k : Nat) : Rat)) := by
-  induction n with
-  | zero => simp
-  | succ n ih => rw [sumR_succ, sumR_succ, Nat.cast_add, ih]
-
-theorem cast_sumR_int (n : Nat) (f : Nat → Nat) : ((sumR n f : Nat) : Int) = sumR n (fun k => ((f k : Nat) : Int)) := by
-  induction n with
-  | zero => simp
-  | succ n ih => rw [sumR_succ, sumR_succ, Nat.cast_add, ih]
-
 /-- `calculate_exceedance_probability[i][j]` is the mean over time of the instance column (guard: non-empty time
     axis — numpy returns NaN for `T = 0`) -/
 theorem probability_mean (m : Mask) (T i j : Nat) :
@@ -255,18 +245,6 @@ theorem probability_mean (m : Mask) (T i j : Nat) :
   unfold prob Py.mean
   rw [cast_sumR]
   simp [sumR]
-
-theorem inst_le_one (m : Mask) (t i j : Nat) : inst m t i j ≤ 1 := by
-  unfold inst; split <;> omega
-
-theorem sumR_le (n : Nat) (f : Nat → Nat) (h : ∀ k, k < n → f k ≤ 1) : sumR n f ≤ n := by
-  induction n with
-  | zero => simp
-  | succ n ih =>
-    rw [sumR_succ]
-    have := ih (fun k hk => h k (by omega))
-    have := h n (by omega)
-    omega
 
 /-- it is a probability, and times the number of time steps it is the number of instances at the location -/
 theorem probability_range (m : Mask) (T i j : Nat) (hT : 0 < T) :
@@ -283,26 +261,12 @@ example : prob (fun t _ _ => decide (t % 2 = 0)) 4 0 0 = 1 / 2 := by decide +ker
 
 /-! ## 3. Conservation of the count -/
 
-/-- number of instances at one location -/
-def countAt (m : Mask) (T i j : Nat) : Nat := sumR T (fun t => inst m t i j)
-
-theorem total_eq_sum_countAt (m : Mask) (T I J : Nat) : total m T I J = sumIJ I J (fun i j => countAt m T i j) := by
-  unfold total countAt
-  exact sum3_time_inner T I J (inst m)
-
 /-- **annual_counts_conserve (per location)** for any number of years ≥ 1 (a single year included), any order of the
     time axis: the annual counts over `np.unique(year(time))` add up to the location's number of instances. -/
 theorem annual_counts_conserve_at (m : Mask) (yr : Nat → Int) (T i j : Nat) :
     ((unique (yearList yr T)).map (fun y => annualCount m yr T y i j)).sum = countAt m T i j := by
   unfold annualCount countAt
   exact sum_years _ yr T _ (nodup_unique _) (fun t ht => yr_mem_unique yr T t ht)
-
-theorem listSum_sumIJ_comm {β : Type} (U : List β) (I J : Nat) (g : β → Nat → Nat → Nat) :
-    (U.map (fun y => sumIJ I J (g y))).sum = sumIJ I J (fun i j => (U.map (fun y => g y i j)).sum) := by
-  unfold sumIJ
-  rw [listSum_sumR_comm]
-  apply sumR_congr; intro i _
-  rw [listSum_sumR_comm]
 
 /-- **annual_counts_conserve**: the whole table `[years][I][J]` sums to the total number of instances -/
 theorem annual_counts_conserve (m : Mask) (yr : Nat → Int) (T I J : Nat) :
@@ -366,34 +330,6 @@ example : spellsLiteral [true, true, false, true, false, false, true, true, true
 example : spellsLiteral [false, false] = some [] := by decide
 example : spellsLiteral [true] = some [1] := by decide
 
-theorem mapM_some {α β : Type} (l : List α) (g : α → β) : l.mapM (fun c => some (g c)) = some (l.map g) := by
-  induction l with
-  | nil => rfl
-  | cons a t ih => simp [List.mapM_cons, ih]
-
-theorem sum_cells {α : Type} [AddCommMonoid α] (I J : Nat) (f : Nat × Nat → α) :
-    ((cells I J).map f).sum = sumIJ I J (fun i j => f (i, j)) := by
-  unfold cells sumIJ
-  induction I with
-  | zero => simp
-  | succ I ih =>
-    rw [List.range_succ, List.flatMap_append, List.map_append, List.sum_append, ih, sumR_succ]
-    simp [sumR, Function.comp_def]
-
-theorem column_count (m : Mask) (T i j : Nat) : (column m T i j).count true = countAt m T i j := by
-  unfold column countAt
-  induction T with
-  | zero => simp
-  | succ T ih =>
-    rw [List.range_succ, List.map_append, List.count_append, ih, sumR_succ]
-    cases h : m T i j <;> simp [inst, h]
-
-theorem column_ne_nil (m : Mask) (T i j : Nat) (hT : 0 < T) : column m T i j ≠ [] := by
-  unfold column
-  intro h
-  have := congrArg List.length h
-  simp at this; omega
-
 /-- `calculate_spell_length` on a grid (non-empty time axis): the run lengths of every location's column,
     locations in `np.ndindex` order, those with `length > minimum_length` kept -/
 theorem spell_lengths_grid (m : Mask) (T I J : Nat) (hT : 0 < T) (minLen : Int) :
@@ -446,19 +382,6 @@ example : spellLengths (fun t _ _ => decide (t ≠ 2 ∧ t ≠ 4)) 6 1 1 0 = som
 example : spellLengths (fun _ _ _ => true) 0 1 1 0 = none := by decide
 
 /-! ### spatial extent -/
-
-theorem filter_ne_zero_sum (l : List Rat) : (l.filter (fun e => decide (e ≠ 0))).sum = l.sum := by
-  induction l with
-  | nil => rfl
-  | cons a t ih =>
-    by_cases h : a = 0
-    · rw [List.filter_cons_of_neg (by simp [h]), ih, List.sum_cons, h, zero_add]
-    · rw [List.filter_cons_of_pos (by simp [h]), List.sum_cons, List.sum_cons, ih]
-
-theorem sumR_mul_right (n : Nat) (f : Nat → Rat) (c : Rat) : sumR n f * c = sumR n (fun k => f k * c) := by
-  induction n with
-  | zero => simp
-  | succ n ih => rw [sumR_succ, sumR_succ, add_mul, ih]
 
 /-- **spatial_extent_conserve**: the extents (zero-extent time steps are dropped, which does not change the sum)
     times the number of cells sum to the total number of instances.  Guard: at least one cell. -/
@@ -573,24 +496,6 @@ theorem accumulative_sum (x : Data) (m : Mask) (T i j : Nat) :
     sumR T (fun t => filt x m t i j) = (((List.range T).filter (fun t => m t i j)).map (fun t => x t i j)).sum := by
   rw [sum_filter_range]; rfl
 
-theorem sumR_nonneg (n : Nat) (f : Nat → Rat) (h : ∀ k, k < n → 0 ≤ f k) : 0 ≤ sumR n f := by
-  induction n with
-  | zero => simp
-  | succ n ih =>
-    rw [sumR_succ]
-    have := ih (fun k hk => h k (by omega))
-    have := h n (by omega)
-    linarith
-
-theorem sumR_mono (n : Nat) (f g : Nat → Rat) (h : ∀ k, k < n → f k ≤ g k) : sumR n f ≤ sumR n g := by
-  induction n with
-  | zero => simp
-  | succ n ih =>
-    rw [sumR_succ, sumR_succ]
-    have := ih (fun k hk => h k (by omega))
-    have := h n (by omega)
-    linarith
-
 /-- **accumulative_percent**: for non-negative data with a positive total the percentage of the total amount beyond
     the threshold is defined, is `100 · (amount over the steps meeting the condition) / total`, and lies in `[0, 100]`.
     (A zero total is `0/0`: NaN in numpy, `none` here.) -/
@@ -661,5 +566,157 @@ theorem accumulative_intensity (x : Data) (m : Mask) (T i j : Nat) :
 
 example : intensity (fun t _ _ => (t : Rat)) (fun t _ _ => decide ((t : Rat) > 2)) 5 0 0 = some (7 / 2) := by decide +kernel
 example : intensity (fun t _ _ => (t : Rat)) (fun t _ _ => decide ((t : Rat) > 9)) 5 0 0 = none := by decide +kernel
+
+/-! ## 5. The dataset passed in is never modified (store model; the flag is observed on the real code by the harness:
+      `np.shares_memory(result, dataset) = False` and the caller's bytes are unchanged) -/
+
+/-- **dataset_unchanged**: `filter_threshold_exceedances` (`inPlace = false`, i.e. `np.where(mask, dataset, 0)`)
+    returns a *new* buffer holding the filtered values; the caller's buffer and every other buffer keep their content -/
+theorem dataset_unchanged (h : Heap) (src : Nat) (m : Mask) (hs : src < h.bufs.length) :
+    (filterStore false h src m).2 ≠ src ∧
+    (filterStore false h src m).1.get (filterStore false h src m).2 = filt (h.get src) m ∧
+    ∀ id, id < h.bufs.length → (filterStore false h src m).1.get id = h.get id := by
+  simp only [filterStore, Bool.false_eq_true, if_false]
+  refine ⟨by omega, ?_, ?_⟩
+  · simp [Heap.get, List.getD_eq_getElem?_getD]
+  · intro id hid
+    simp [Heap.get, List.getD_eq_getElem?_getD, List.getElem?_append_left hid]
+
+/-- F7 (repaired): the in-place variant returns the caller's own buffer and overwrites it -/
+theorem legacy_filter_in_place :
+    ∃ (h : Heap) (src : Nat) (m : Mask), src < h.bufs.length ∧ (filterStore true h src m).2 = src ∧
+      (filterStore true h src m).1.get src 0 0 0 ≠ h.get src 0 0 0 := by
+  refine ⟨⟨[fun _ _ _ => 1]⟩, 0, fun _ _ _ => false, by simp, rfl, ?_⟩
+  decide +kernel
+
+/-! ## 6. Thresholds defined by a quantile are exceeded with the corresponding empirical frequency -/
+
+open Model.Stats in
+/-- **quantile_count**: in a tie-free sample of size `n ≥ 1` exactly `n − 1 − ⌊q (n−1)⌋` values are strictly above the
+    (numpy default, `linear`) `q`-quantile, for every `q ∈ [0, 1]` -/
+theorem quantile_count (x : List Rat) (q : Rat) (hn : x.Nodup) (hne : x ≠ []) (hq0 : 0 ≤ q) (hq1 : q ≤ 1) :
+    (((x.filter (fun v => decide (v > quantileLinear (sortQ x) q))).length : Nat) : Int) =
+      (x.length : Int) - 1 - (q * ((x.length : Rat) - 1)).floor := by
+  have hs := sortQ_strict x hn
+  have hsne : sortQ x ≠ [] := by
+    intro h; have := sortQ_length x; rw [h] at this; simp at this; exact hne (List.length_eq_zero_iff.mp this.symm)
+  obtain ⟨f, hf, hlt, hlo, _, hhi⟩ := quantileLinear_bracket (sortQ x) hs hsne q hq0 hq1
+  rw [sortQ_length] at hf
+  rw [mul_comm q, ← hf]
+  have hperm : (x.filter (fun v => decide (v > quantileLinear (sortQ x) q))).length =
+      ((sortQ x).filter (fun v => decide (v > quantileLinear (sortQ x) q))).length :=
+    ((sortQ_perm x).filter _).length_eq.symm
+  rw [hperm, count_false_then_true (sortQ x) _ (f + 1) (by omega)]
+  · rw [sortQ_length] at hlt ⊢; omega
+  · intro a ha hag
+    have := strict_getElem_le (sortQ x) hs a f ha hlt (by omega)
+    simp only [gt_iff_lt, decide_eq_false_iff_not, not_lt]; linarith
+  · intro a ha hag
+    have h1 := hhi (by omega)
+    have := strict_getElem_le (sortQ x) hs (f + 1) a (by omega) ha hag
+    simp only [gt_iff_lt, decide_eq_true_eq]; linarith
+
+open Model.Stats in
+/-- the mirror image for `threshold_type = "lower"`: `⌈q (n−1)⌉` values are strictly below the `q`-quantile -/
+theorem quantile_count_lower (x : List Rat) (q : Rat) (hn : x.Nodup) (hne : x ≠ []) (hq0 : 0 ≤ q) (hq1 : q ≤ 1) :
+    (((x.filter (fun v => decide (v < quantileLinear (sortQ x) q))).length : Nat) : Int) =
+      if ((q * ((x.length : Rat) - 1)).floor : Rat) = q * ((x.length : Rat) - 1) then (q * ((x.length : Rat) - 1)).floor
+      else (q * ((x.length : Rat) - 1)).floor + 1 := by
+  have hs := sortQ_strict x hn
+  have hsne : sortQ x ≠ [] := by
+    intro h; have := sortQ_length x; rw [h] at this; simp at this; exact hne (List.length_eq_zero_iff.mp this.symm)
+  obtain ⟨f, hf, hlt, hlo, heq, hhi⟩ := quantileLinear_bracket (sortQ x) hs hsne q hq0 hq1
+  rw [sortQ_length] at hf heq
+  rw [mul_comm q, ← hf]
+  have hperm : (x.filter (fun v => decide (v < quantileLinear (sortQ x) q))).length =
+      ((sortQ x).filter (fun v => decide (v < quantileLinear (sortQ x) q))).length :=
+    ((sortQ_perm x).filter _).length_eq.symm
+  rw [hperm]
+  by_cases hint : (((f : Nat) : Int) : Rat) = ((x.length : Rat) - 1) * q
+  · -- the quantile is the order statistic `s[f]`
+    have hQ : (sortQ x)[f] = quantileLinear (sortQ x) q := heq.mpr (by rw [← hint]; push_cast; rfl)
+    rw [if_pos hint, count_true_then_false (sortQ x) _ f (by omega)]
+    · intro a ha hag
+      have := List.pairwise_iff_getElem.mp hs a f ha hlt hag
+      simp only [decide_eq_true_eq]; rw [← hQ]; exact this
+    · intro a ha hag
+      have := strict_getElem_le (sortQ x) hs f a hlt ha hag
+      simp only [decide_eq_false_iff_not, not_lt]; rw [← hQ]; exact this
+  · have hQ : (sortQ x)[f] ≠ quantileLinear (sortQ x) q := by
+      intro h; apply hint; rw [heq.mp h]; push_cast; rfl
+    have hQlt : (sortQ x)[f] < quantileLinear (sortQ x) q := lt_of_le_of_ne hlo hQ
+    rw [if_neg hint, count_true_then_false (sortQ x) _ (f + 1) (by omega)]
+    · push_cast; rfl
+    · intro a ha hag
+      have := strict_getElem_le (sortQ x) hs a f ha hlt (by omega)
+      simp only [decide_eq_true_eq]; linarith
+    · intro a ha hag
+      have h1 := hhi (by omega)
+      have := strict_getElem_le (sortQ x) hs (f + 1) a (by omega) ha hag
+      simp only [decide_eq_false_iff_not, not_lt]; linarith
+
+open Model.Stats in
+/-- **quantile_frequency**: the exceedance frequency of the `q`-quantile differs from `1 − q` by at most `1/n` -/
+theorem quantile_frequency (x : List Rat) (q : Rat) (hn : x.Nodup) (hne : x ≠ []) (hq0 : 0 ≤ q) (hq1 : q ≤ 1) :
+    let c : Rat := (((x.filter (fun v => decide (v > quantileLinear (sortQ x) q))).length : Nat) : Rat)
+    let n : Rat := (x.length : Rat)
+    (1 - q) - 1 / n ≤ c / n ∧ c / n ≤ (1 - q) + 1 / n := by
+  intro c n
+  have hc := quantile_count x q hn hne hq0 hq1
+  have hlen : 0 < x.length := List.length_pos_iff.mpr hne
+  have hnpos : (0 : Rat) < n := by show (0 : Rat) < (x.length : Rat); exact_mod_cast hlen
+  have hcq : c = n - 1 - ((q * (n - 1)).floor : Rat) := by
+    have := congrArg (fun z : Int => (z : Rat)) hc
+    simpa using this
+  have h1 := floor_le' (q * (n - 1))
+  have h2 := lt_floor_add_one' (q * (n - 1))
+  have e : ∀ a b : Rat, a / n ≤ b / n ↔ a ≤ b := fun a b => div_le_div_iff_of_pos_right hnpos
+  constructor
+  · rw [show (1 - q) - 1 / n = ((1 - q) * n - 1) / n by field_simp, e]; rw [hcq]; nlinarith
+  · rw [show (1 - q) + 1 / n = ((1 - q) * n + 1) / n by field_simp, e]; rw [hcq]; nlinarith
+
+-- the hypotheses are satisfiable; `(n − 1) q = 4.5`, quantile 5, two of seven values above: `7 − 1 − 4`
+example : ([3, 1, 4, 3 / 2, 9, 2, 6] : List Rat).Nodup := by decide +kernel
+open Model.Stats in
+example : quantileLinear [1, 3 / 2, 2, 3, 4, 6, 9] (3 / 4) = 5 ∧
+    (([3, 1, 4, 3 / 2, 9, 2, 6] : List Rat).filter (fun v => decide (v > 5))).length = 2 := by decide +kernel
+
+/-! the same statement on the metric that `from_quantile` builds (threshold type `higher`, scope `overall`) -/
+
+open Model.Stats in
+/-- **from_quantile, global**: the metric `from_quantile(x, q, "higher")` built from a tie-free data set has exactly
+    `n − 1 − ⌊q (n−1)⌋` instances on that data set, `n = T·I·J` its number of values -/
+theorem from_quantile_count_global (x : Data) (grp : Option (Nat → Int)) (T I J : Nat) (q q' : Rat)
+    (hn : (flat x (List.range T) I J).Nodup) (hne : flat x (List.range T) I J ≠ []) (hq0 : 0 ≤ q) (hq1 : q ≤ 1) :
+    ∃ met a, fromQuantile .higher false .global x grp T I J q q' = .ok met ∧ instances met x grp T = .ok a ∧
+      ((sum3 T I J a : Nat) : Int) = ((flat x (List.range T) I J).length : Int) - 1 -
+        (q * (((flat x (List.range T) I J).length : Rat) - 1)).floor := by
+  refine ⟨_, _, rfl, rfl, ?_⟩
+  rw [← quantile_count _ q hn hne hq0 hq1, flat_count]
+  rfl
+
+open Model.Stats in
+/-- **from_quantile, local**: with per-location thresholds every location whose series is tie-free has
+    `T − 1 − ⌊q (T−1)⌋` instances -/
+theorem from_quantile_count_local (x : Data) (grp : Option (Nat → Int)) (T I J : Nat) (q q' : Rat) (i j : Nat)
+    (hn : ((List.range T).map (fun t => x t i j)).Nodup) (hT : 0 < T) (hq0 : 0 ≤ q) (hq1 : q ≤ 1) :
+    ∃ met a, fromQuantile .higher false .local x grp T I J q q' = .ok met ∧ instances met x grp T = .ok a ∧
+      ((sumR T (fun t => a t i j) : Nat) : Int) = (T : Int) - 1 - (q * ((T : Rat) - 1)).floor := by
+  refine ⟨_, _, rfl, rfl, ?_⟩
+  have hne : (List.range T).map (fun t => x t i j) ≠ [] := by
+    intro h; have := congrArg List.length h; simp at this; omega
+  have := quantile_count _ q hn hne hq0 hq1
+  rw [count_map_range] at this
+  simp only [List.length_map, List.length_range] at this
+  rw [← this]
+  rfl
+
+/-- `from_quantile` for `between` / `outside` needs `q₀ < q₁` (otherwise `ValueError`) and then builds both bounds
+    (F18, repaired: the real code tested for the non-existent type `"inside"` and rejected every `between` request) -/
+theorem from_quantile_two_sided (ty : ThType) (hty : usesUpper ty = true) (lc : Locality) (x : Data) (T I J : Nat)
+    (q0 q1 : Rat) :
+    (q0 < q1 → ∃ met, fromQuantile ty false lc x none T I J q0 q1 = .ok met ∧ met.ty = ty) ∧
+    (¬ q0 < q1 → fromQuantile ty false lc x none T I J q0 q1 = .error "ValueError") := by
+  cases ty <;> simp [usesUpper] at hty <;> constructor <;> intro h <;> simp [fromQuantile, qSpec, h]
 
 end Props.C19
